@@ -18,7 +18,9 @@ EXPLANATION = (
     "count(spec, element)*y[IDX_spec] over the same unfiltered network.species, guarded by the IDX_ELEM_ macro of the loop's own "
     "element, exactly as the macro header defines it. R2 every way two species can be identified (each disjunct of Species.__eq__) "
     "forces equal composition and charge: same name, or ice with equal basename+charge+group, or grains (no elements) with equal "
-    "group+charge, or both electrons. R3 electrons hash to one constant so that all spellings share one ODE variable.")
+    "group+charge, or both electrons. R3 electrons hash to one constant so that all spellings share one ODE variable. R4 (shared with "
+    "C09.R6) distinct species get distinct IDX_ identifiers: Species.alias is <phase><basename><injective charge run> and is never "
+    "post-processed by deleting characters.")
 ASSUMPTIONS = [
     "whether an input network is balanced is the user's premise",
     "the composition assigned to a given name is C08's subject (not decidable statically)",
@@ -39,6 +41,10 @@ def check(ctx):
     reaction_sites(ctx, m, "R0", "R0")
     _r1(ctx)
     _r2(ctx)
+    # R4: one ODE variable per species -- the identifier IDX_<alias> is an injective function of the species (rule shared with C09.R6)
+    from . import c09
+    ctx.absorb(lambda sub: c09._alias_rule(sub, package(sub.tree)), "R4", only=lambda o: o.key.startswith("Species.alias"))
+    ctx.floor("R4", "alias obligations", len([o for o in ctx.obs if o.rule == "R4"]), 2)
 
 
 def _resolve(e, sets):
@@ -207,6 +213,10 @@ MUTANTS = [
     {"name": "guard-loop-index", "file": PHYS, "old": "if (elemidx == IDX_ELEM_{{ elem.element_count.keys() | first }}) {", "new": "if (elemidx == IDX_ELEM_{{ elem.element_count.keys() | last }}) {", "rules": ["R1"]},
     {"name": "skip-catalyst", "file": FILE, "old": "            for specidx in pspecidx:\n                rhs[specidx] += f\" + ", "new": "            for specidx in pspecidx:\n                if specidx in rspecidx:\n                    continue\n                rhs[specidx] += f\" + ", "rules": ["R0"]},
     {"name": "electron-hash-name", "file": SPECIES, "old": '            hash("Electron")\n            if self.is_electron', "new": '            hash(self.name)\n            if self.is_electron', "rules": ["R3"]},
+]
+MUTANTS += [
+    {"name": "alias-strip-nonword", "file": SPECIES, "old": "        return self._alias\n\n    @alias.setter", "new": "        self._alias = re.sub(r'\\W', '', self._alias)\n        return self._alias\n\n    @alias.setter", "rules": ["R4"]},
+    {"name": "alias-single-M", "file": SPECIES, "old": 'else "M" * abs(self.charge),', "new": 'else "M",', "rules": ["R4"]},
 ]
 BENIGN = [
     {"name": "eq-disjuncts-reordered", "file": SPECIES, "old": "                (self.is_electron and o.is_electron)\n                or (", "new": "                self.name == o.name\n                or (self.is_electron and o.is_electron)\n                or ("},
